@@ -289,25 +289,15 @@ class DataSim(object):
 
     # ------------------------------------------------------------------ run
     def run(self):
-        warnings.simplefilter("ignore")
-        old_cwd = os.getcwd()
-        os.makedirs(self.workdir, exist_ok=True)
-        os.chdir(self.workdir)
-        np_state = np.random.get_state()
-        self.env.install()
-        self.cf.install()
-        try:
-            self._run()
-        finally:
-            self.cf.uninstall()
-            self.env.uninstall()
-            np.random.set_state(np_state)
-            for ds in self._open:
-                ds.close()
-            self._open = []
-            os.chdir(old_cwd)
-            gc.collect()
-        digest = hashlib.sha256("\n".join(self.log).encode()).hexdigest()[:20]
+        """Single-dataset run.  Multi-tenant runs (several worlds interleaved in one process) go
+        through run_multi(), which shares the environment seams between the sims."""
+        return run_multi([self], None)
+
+    def result(self, extra_logs=()):
+        logs = list(self.log)
+        for l in extra_logs:
+            logs.extend(l)
+        digest = hashlib.sha256("\n".join(logs).encode()).hexdigest()[:20]
         fired = Counter()
         fired.update(self.env.fired)
         fired.update(self.cf.fired)
@@ -315,9 +305,10 @@ class DataSim(object):
             if self.stats.get("fired:" + k):
                 fired[k] += self.stats["fired:" + k]
         return {"violation": self.violation, "digest": digest, "stats": dict(self.stats), "fired": dict(fired),
-                "states": sorted(self.states), "log": self.log, "steps": len(self.ops)}
+                "states": sorted(self.states), "log": logs, "steps": len(self.ops)}
 
-    def _run(self):
+    def prepare(self):
+        """Materialise the world, build probe and live dataset.  Returns False when nothing can be stepped."""
         self.emit({"seed": self.spec.get("seed"), "run": self.spec.get("run"), "prop": self.spec.get("prop")})
         self.names = W.materialise(self.world, ".")
         self.file_digests = {n: file_digest(n) for n in self.names}
@@ -337,18 +328,22 @@ class DataSim(object):
             self.stats["construct_failed"] += 1
             if live.status != self.probe.status:
                 self.violate(-1, "construct_nondeterministic", {"a": live.status, "b": self.probe.status})
-            return
+            return False
         self.datasets = [live.data]
         self.snapshots = [input_snapshot(i) for i in live.inputs]
         for o in self.oracles:
             o.begin(self)
-        for step, op in enumerate(self.ops):
-            if self.violation is not None:
-                break
-            self.step(step, op)
+        return True
+
+    def conclude(self):
         if self.violation is None:
             for o in self.oracles:
                 o.finish(self)
+
+    def release(self):
+        for ds in self._open:
+            ds.close()
+        self._open = []
 
     def apply_env(self, op):
         if op["op"] == "tz":
@@ -478,3 +473,70 @@ class Oracle(object):
 def describe_req(req):
     return {"fields": req["fields"], "single": bool(req.get("single")), "input": req["input"], "axis": req["axis"],
             "index": req.get("index")}
+
+
+def run_multi(sims, schedule):
+    """Run one or more DataSims in one process under shared environment seams.
+
+    `schedule` is a list of sim indices: which tenant executes its next operation.  When it is
+    exhausted (or None) the remaining operations run tenant by tenant.  The run stops at the first
+    violation of any tenant; the result is that of sims[0] with the others' logs appended.
+    """
+    warnings.simplefilter("ignore")
+    old_cwd = os.getcwd()
+    env = sims[0].env
+    cf = sims[0].cf
+    for s in sims[1:]:
+        s.env = env
+        s.cf = cf
+    np_state = np.random.get_state()
+    env.install()
+    cf.install()
+    try:
+        ready = []
+        for s in sims:
+            os.makedirs(s.workdir, exist_ok=True)
+            os.chdir(s.workdir)
+            ready.append(s.prepare())
+        ptr = [0] * len(sims)
+
+        def violated():
+            return any(s.violation is not None for s in sims)
+
+        def step(k):
+            s = sims[k]
+            if not ready[k] or ptr[k] >= len(s.ops):
+                return
+            os.chdir(s.workdir)
+            s.step(ptr[k], s.ops[ptr[k]])
+            ptr[k] += 1
+
+        for k in (schedule or []):
+            if violated():
+                break
+            if 0 <= k < len(sims):
+                step(k)
+        for k in range(len(sims)):
+            while not violated() and ready[k] and ptr[k] < len(sims[k].ops):
+                step(k)
+        if not violated():
+            for s in sims:
+                os.chdir(s.workdir)
+                s.conclude()
+    finally:
+        cf.uninstall()
+        env.uninstall()
+        np.random.set_state(np_state)
+        for s in sims:
+            s.release()
+        os.chdir(old_cwd)
+        gc.collect()
+    res = sims[0].result(extra_logs=[s.log for s in sims[1:]])
+    for k, s in enumerate(sims[1:], 1):
+        if res["violation"] is None and s.violation is not None:
+            res["violation"] = dict(s.violation, tenant=k)
+        for key, val in s.stats.items():
+            res["stats"][key] = res["stats"].get(key, 0) + val
+        res["states"] = sorted(set(res["states"]) | s.states)
+        res["steps"] += len(s.ops)
+    return res
